@@ -161,7 +161,7 @@ theorem scalarKeys_of_typed_aux (hws : w.SupU false) (hk : (KeysHP w)) :
         cases x with
         | inst c' fs =>
           simp only [wellTyped, Bool.and_eq_true, beq_iff_eq] at hwt
-          obtain ⟨hc, hwf⟩ := hwt
+          obtain ⟨⟨hc, _⟩, hwf⟩ := hwt
           subst hc
           rw [scalarKeys]
           have key : ∀ (fds : List Field) (gs : List (String × Obj)), (∀ f ∈ fds, f ∈ w.fields c) →
@@ -192,9 +192,26 @@ theorem scalarKeys_of_typed_aux (hws : w.SupU false) (hk : (KeysHP w)) :
         | none => rfl
         | inst c fs =>
           simp only [wellTyped, Bool.and_eq_true, List.contains_iff_mem] at hwt
-          have hcm : c ∈ ucs := by simpa using hwt.1
+          have hcm : c ∈ ucs := by simpa using hwt.1.1
           exact ihm (.cls c) (.inst c fs) hx (by have := sizeOf_cls_lt_union hcm hn; omega)
-            (by simp [keysHP]) (by simp [Ty.supU]) (by simp [wellTyped, hwt.2])
+            (by simp [keysHP]) (by simp [Ty.supU]) (by simp [wellTyped, hwt.2, hwt.1.2])
+        | _ => simp [wellTyped] at hwt
+      | nt c =>
+        cases x with
+        | inst c' fs =>
+          simp only [wellTyped, Bool.and_eq_true, beq_iff_eq] at hwt
+          obtain ⟨⟨hc, hnt⟩, hwf⟩ := hwt
+          subst hc
+          rw [scalarKeys]
+          refine (scalarKeysF_iff fs).mpr (fun p hp' => ?_)
+          have hv : p.2 ∈ vals fs := by simp only [vals, List.mem_map]; exact ⟨p, hp', rfl⟩
+          obtain ⟨t', ht', hh⟩ := wellTypedT_mem w _ _ hwf p.2 hv
+          have hkp : keysHP t' = true := by
+            simp only [World.ntTys, List.mem_map] at ht'
+            obtain ⟨f, hf, rfl⟩ := ht'
+            obtain ⟨t'', hty, hkp⟩ := hk c f hf
+            simp only [Field.tyA, hty]; exact hkp
+          exact IHo t' p.2 (by have := sizeOf_snd_lt_of_mem hp'; simp; omega) hkp (ntTys_supU w hws c t' ht') hh
         | _ => simp [wellTyped] at hwt
 
 theorem scalarKeys_of_typed (hws : w.SupU false) (hk : (KeysHP w)) {t : Ty} {x : Obj}
